@@ -15,13 +15,13 @@ func init() {
 	register(&Rule{ID: "E-FILTER-GUARDS-RHS", Props: []string{"C17", "C01"}, Floor: 1,
 		Doc: "in the fused filter projection the right-hand side is evaluated only for elements the predicate accepted: the evaluation of the projected node is dominated by the true edge of isTrue(predicate result), as in the unfused composition filter | projection",
 		Run: ruleEFilterGuardsRHS})
-	register(&Rule{ID: "E-FLOAT-ARITH-SITES", Props: []string{"C14", "C15", "C05"}, Floor: 5,
+	register(&Rule{ID: "E-FLOAT-ARITH-SITES", Props: []string{"C14", "C15", "C05"}, Floor: 1,
 		Doc: "binary floating-point arithmetic occurs only in the six arithmetic operator helpers (on the operands their toFloatPair fast path returned) and in unary minus; aggregates (sum, avg) and every other helper compute on decimal128 values, so the result of an aggregate does not depend on the Go type of individual elements or on the order in which floats are added",
 		Run: ruleEFloatArithSites})
 	register(&Rule{ID: "E-BYTE-TO-STRING", Props: []string{"C11", "C16"}, Floor: 1,
 		Doc: "no single byte of text is converted to a string (string(b) of a byte widens a UTF-8 code unit to the code point of the same number): text is copied as substrings or written as bytes/runes",
 		Run: ruleEByteToString})
-	register(&Rule{ID: "P-LET-SHAPE", Props: []string{"C19", "C15"}, Floor: 2,
+	register(&Rule{ID: "P-LET-SHAPE", Props: []string{"C19", "C15"}, Floor: 1,
 		Doc: "the let parser keeps every binding it parsed: each `$name = expr` is stored in the binding map under its name unconditionally, nothing is removed from that map, and the only success return builds the DefineVariables node from that map and the body",
 		Run: rulePLetShape})
 }
